@@ -169,9 +169,10 @@ def run_property(prop, tier, seed):
                        'file': r['file'], 'func': r['func'], 'src_sha': r['src_sha'], 'solver': o['backend'],
                        'solver_output': 'sat', 'counter_model_inputs': o.get('inputs'), 'counter_model_locals': o.get('locals')}
             replayed = None
-            if hasattr(mod, 'replay_model') and o.get('inputs') is not None:
+            if o.get('inputs') is not None:
                 try:
-                    replayed = mod.replay_model(r, o)
+                    from . import modelreplay
+                    replayed = mod.replay_model(r, o) if hasattr(mod, 'replay_model') else modelreplay.replay(r, o)
                 except Exception:
                     replayed = {'error': traceback.format_exc()[-2000:]}
                 payload['native_replay'] = replayed
@@ -277,6 +278,15 @@ def replay(path):
         print('not reproduced on the current tree')
         return 0
     print(json.dumps({k: payload.get(k) for k in ('property', 'key', 'solver', 'solver_output', 'counter_model_inputs', 'native_replay')}, indent=1, default=str))
+    if (payload.get('native_replay') or {}).get('reproduced'):
+        # the solver's counter-model was reproduced on the real code: run the same input again on the current tree
+        from . import modelreplay
+        out = modelreplay.replay({'contract': payload.get('contract'), 'instance': None}, {'inputs': payload.get('counter_model_inputs'), 'id': payload['key']})
+        if out and out.get('reproduced'):
+            print('REPRODUCED on the real code: %s' % out.get('observed'))
+            print('VIOLATION property=%s replay=%s' % (prop, path))
+            return 1
+        print('counter-model input not reproduced on the current tree: %s' % (out or {}).get('observed'))
     # an obligation replay: re-run the property's proof tier and report whether the obligation still fails
     mod = importlib.import_module('props.' + prop)
     contracts = [c for c in mod.contracts('quick') if c.name == payload.get('contract')]
